@@ -234,6 +234,59 @@ def dqmEqTermsOf (ncases : List Nat) (lam C : Rat) (m : List (Nat × Rat)) : Lis
 def dqmEqTerms (ncases : List Nat) (terms : List (Nat × Nat × Rat)) (lam C : Rat) : Option (List (PTerm Nat)) :=
   (dqmResolve ncases terms).map (fun r => dqmEqTermsOf ncases lam C (mergeAdj (sortByCase r)))
 
+/-! ### DQM: the variable-level adjacency `adj_` kept next to the case-level model
+
+`energies()` only visits the variable pairs listed in `adj_`, so the equality constraint must also
+merge its variables into every `adj_[v]` ("finally fix the adjacency").  The merge is modelled as coded. -/
+
+/-- merge the sorted constraint variables `xs` (skipping `v` itself) into the sorted neighbour list of `v` -/
+def adjMerge (v : Nat) : List Nat → List Nat → List Nat
+  | [], nb => nb
+  | x :: xs, [] => if x = v then adjMerge v xs [] else x :: adjMerge v xs []
+  | x :: xs, n :: ns =>
+    if x = v then adjMerge v xs (n :: ns)
+    else if x < n then x :: adjMerge v xs (n :: ns)
+    else if n < x then n :: adjMerge v (x :: xs) ns
+    else n :: adjMerge v xs ns
+termination_by xs nb => xs.length + nb.length
+
+def insertUniq (a : Nat) : List Nat → List Nat
+  | [] => [a]
+  | b :: r => if a < b then a :: b :: r else if a = b then b :: r else b :: insertUniq a r
+
+/-- `unordered_set` of the variables of the merged terms, sorted -/
+def sortedVars (ncases : List Nat) (m : List (Nat × Rat)) : List Nat :=
+  m.foldr (fun t acc => insertUniq (varOfCase ncases t.1) acc) []
+
+/-- the adjacency after the constraint: every constraint variable's list gets the other constraint variables merged in -/
+def adjUpdate (adj : List (List Nat)) (vars : List Nat) : List (List Nat) :=
+  (List.range adj.length).map (fun i => if vars.contains i then adjMerge i vars (adj.getD i []) else adj.getD i [])
+
+/-- a DQM: numbers of cases, the case-level BINARY model, the variable-level adjacency -/
+structure Dqm where
+  ncases : List Nat
+  bq : Bq Nat
+  adj : List (List Nat)
+
+/-- `cyDiscreteQuadraticModel.add_linear_equality_constraint` on an arbitrary DQM (`none` = `ValueError`) -/
+def dqmAddEq (d : Dqm) (terms : List (Nat × Nat × Rat)) (lam C : Rat) : Option Dqm :=
+  (dqmResolve d.ncases terms).map (fun r =>
+    let m := mergeAdj (sortByCase r)
+    { d with bq := d.bq.apply (dqmEqTermsOf d.ncases lam C m), adj := adjUpdate d.adj (sortedVars d.ncases m) })
+
+/-- `energies()` as coded: offset, the linear bias of every chosen case, and the case-pair bias of every
+    *adjacent* variable pair `v < u` (the loop breaks at the first neighbour above `u`) -/
+def Dqm.quadCoef (d : Dqm) (a b : Nat) : Rat :=
+  ((d.bq.quad.find? (fun e => (e.1.1 = a ∧ e.1.2 = b) ∨ (e.1.1 = b ∧ e.1.2 = a))).map (·.2)).getD 0
+
+def Dqm.linCoef (d : Dqm) (a : Nat) : Rat := ((d.bq.lin.find? (fun e => e.1 = a)).map (·.2)).getD 0
+
+def Dqm.energyCoded (d : Dqm) (sample : List Nat) : Rat :=
+  let cs := caseStarts d.ncases
+  let gc (u : Nat) : Nat := cs.getD u 0 + sample.getD u 0
+  d.bq.off + ((List.range d.ncases.length).map (fun u =>
+    d.linCoef (gc u) + (((d.adj.getD u []).takeWhile (fun v => v ≤ u)).map (fun v => d.quadCoef (gc u) (gc v))).foldl (· + ·) 0)).foldl (· + ·) 0
+
 /-! ## slack construction of the two `add_linear_inequality_constraint`s -/
 
 def pows : Nat → List Nat
